@@ -86,6 +86,42 @@ macro_rules! compact_fns {
 				Err(_) => "panic".into(),
 			};
 			ctx.emit(stream, concat!("Compact<u", stringify!($w), "B>"), &format!("cdec {} {}", $w, hex_or_dash(bs)), &ans);
+			// oracle (C04): the in-place decoder (`decode_into`: arrays, Box/Rc/Arc) and `skip` accept
+			// exactly the canonical forms `decode` accepts
+			{
+				let via = |r: std::thread::Result<(Option<$t>, usize)>| match r {
+					Ok((Some(x), rem)) => format!("ok {} {}", x, rem),
+					Ok((None, _)) => "err".to_string(),
+					Err(_) => "panic".to_string(),
+				};
+				let a1 = via(catch_unwind(|| {
+					let mut s = &bs[..];
+					let r = <[Compact<$t>; 1]>::decode(&mut s).ok().map(|a| a[0].0);
+					(r, s.len())
+				}));
+				let a2 = via(catch_unwind(|| {
+					let mut s = &bs[..];
+					let r = <Box<Compact<$t>>>::decode(&mut s).ok().map(|a| a.0);
+					(r, s.len())
+				}));
+				let a3 = via(catch_unwind(|| {
+					let mut s = &bs[..];
+					let r = <std::sync::Arc<[Compact<$t>; 1]>>::decode(&mut s).ok().map(|a| a[0].0);
+					(r, s.len())
+				}));
+				let sk = match catch_unwind(|| {
+					let mut s = &bs[..];
+					<Compact<$t>>::skip(&mut s).ok().map(|_| s.len())
+				}) {
+					Ok(Some(rem)) => format!("ok {}", rem),
+					Ok(None) => "err".to_string(),
+					Err(_) => "panic".to_string(),
+				};
+				let want_sk = if ans.starts_with("ok ") { format!("ok {}", ans.rsplit(' ').next().unwrap()) } else { ans.clone() };
+				if a1 != ans || a2 != ans || a3 != ans || sk != want_sk {
+					ctx.oracle_fail("C04", format!("Compact<u{}> on {}: decode `{}`, as [_; 1] `{}`, boxed `{}`, Arc<[_; 1]> `{}`, skip `{}`", $w * 8, hex(bs), ans, a1, a2, a3, sk));
+				}
+			}
 			// oracle (C04/C08): the same answer from inputs that cannot report their remaining length
 			let r2 = catch_unwind(|| {
 				let mut u = UnknownLenInput { data: bs, pos: 0 };
@@ -503,6 +539,14 @@ pub fn run_type<T: Cat + DecodeAll + DecodeLimit>(ctx: &mut Ctx, stream: &str, n
 					},
 					None => ctx.oracle_fail("C02", format!("{}: decode(encode(v)) failed: v={} enc={}", name, val_string(&v, true), hex_or_dash(&bs))),
 				}
+				match catch_unwind(AssertUnwindSafe(|| (v.using_encoded(|b| b.to_vec()), v.encoded_size()))) {
+					Ok((u, n)) if u[..] == bs[..enc_len] && n == enc_len => {},
+					other => {
+						let msg = format!("{}: using_encoded / encoded_size of v={} disagree with encode ({} bytes): {:?}", name, val_string(&v, true).chars().take(100).collect::<String>(), enc_len, other.ok().map(|(u, n)| (u.len(), n)));
+						ctx.oracle_fail("C02", msg.clone());
+						ctx.oracle_fail("C07", msg);
+					},
+				}
 				// ... and from every other kind of input (C02 is not about slices)
 				let want = val_string(&v, true);
 				let others: Vec<(&str, Option<(String, usize)>)> = vec![
@@ -539,6 +583,23 @@ pub fn run_type<T: Cat + DecodeAll + DecodeLimit>(ctx: &mut Ctx, stream: &str, n
 				ctx.emit("mut", name, &format!("dec {} {}", T::ty(m.len() + 1), hex_or_dash(&m)), &ans);
 				if ans == "err" {
 					decpos_emit::<T>(ctx, "mut-pos", name, &m);
+				}
+				// oracle (C03/C18): `skip` steps over exactly the byte strings `decode` accepts
+				{
+					let r = catch_unwind(AssertUnwindSafe(|| {
+						let mut s = &m[..];
+						T::skip(&mut s).ok().map(|_| s.len())
+					}));
+					let want = if ans.starts_with("ok ") { ans.rsplit(' ').next().and_then(|x| x.parse::<usize>().ok()) } else { None };
+					match r {
+						Ok(got) if got == want || ans == "panic" => {},
+						Ok(got) => {
+							let msg = format!("{}: skip gives {:?} (bytes left) where decode gives `{}` on {}", name, got, &ans[..ans.len().min(50)], hex_or_dash(&m[..m.len().min(48)]));
+							ctx.oracle_fail("C03", msg.clone());
+							ctx.oracle_fail("C18", msg);
+						},
+						Err(_) => ctx.oracle_fail("C03", format!("{}: skip panicked on {}", name, hex_or_dash(&m[..m.len().min(48)]))),
+					}
 				}
 				// oracle (C03/C08): a reader that is interrupted between deliveries (`ErrorKind::Interrupted`)
 				// still delivers these bytes; what is accepted does not depend on it
@@ -1301,6 +1362,90 @@ fn big_stream(ctx: &mut Ctx) {
 		cap_case!(u8, Lsb0, "u8,Lsb0");
 		cap_case!(u64, Msb0, "u64,Msb0");
 	}
+	// a count in the five-byte mode (2^30 elements; 2^32 - 1 in the thorough tier): only zero-sized
+	// elements make that affordable
+	{
+		let counts: Vec<usize> = if ctx.tier_thorough { vec![1 << 30, u32::MAX as usize] } else { vec![1 << 30] };
+		for n in counts {
+			let r = catch_unwind(AssertUnwindSafe(|| {
+				let v: Vec<()> = vec![(); n];
+				let a = v.encode();
+				let b = (&v[..]).encode();
+				let n2 = v.encoded_size();
+				let d: std::collections::VecDeque<()> = std::iter::repeat(()).take(n).collect();
+				let c = d.encode();
+				(a, b, c, n2)
+			}));
+			let want = Compact(n as u32).encode();
+			match r {
+				Ok((a, b, c, n2)) if a == want && b == want && c == want && n2 == want.len() => {},
+				other => ctx.oracle_fail("C01", format!("{} unit elements: Vec / slice / VecDeque encode to {:?}, expected the count prefix {} alone", n, other.ok().map(|(a, b, c, _)| (hex_or_dash(&a), hex_or_dash(&b), hex_or_dash(&c))), hex_or_dash(&want))),
+			}
+			ctx.count("big:five-byte-count", 1);
+		}
+	}
+	// arrays of large elements behind a holder are decoded in place: a thread with a 256 KiB stack
+	// decodes `Box<[[u8; 1 MiB]; 3]>` and friends (by-value elements would overflow it; an overflow
+	// aborts the process and is attributed by the check)
+	{
+		std::fs::write(&ctx.current_path, "Box<[[u8; 1 MiB]; 3]> etc. on a 256 KiB stack\n").ok();
+		let h = std::thread::Builder::new().stack_size(256 * 1024).spawn(|| {
+			let bs = vec![7u8; 3 << 20];
+			let a = <Box<[[u8; 1 << 20]; 3]>>::decode(&mut &bs[..]).map(|b| b[2][5]).ok();
+			let b = <std::rc::Rc<[[u32; 1 << 18]; 2]>>::decode(&mut &bs[..]).map(|b| b[1][9]).ok();
+			let c = <std::sync::Arc<[[[u16; 1 << 10]; 256]; 2]>>::decode(&mut &bs[..]).map(|b| b[1][2][3]).ok();
+			let d = <Box<[crate::derived::TransBig; 2]>>::decode(&mut &bs[..]).map(|b| b[1].0[7]).ok();
+			(a, b, c, d)
+		});
+		match h.map(|h| h.join()) {
+			Ok(Ok((Some(7), Some(0x07070707), Some(0x0707), Some(7)))) => {},
+			other => ctx.oracle_fail("C03", format!("arrays of megabyte-sized elements behind Box/Rc/Arc on a 256 KiB stack: {:?}", other.map(|r| r.ok()).ok())),
+		}
+		ctx.count("big:small-stack-holders", 4);
+	}
+	// a `GenericArray` announces nothing to a memory tracker (like the array it encodes as), in every
+	// feature configuration; arrays of primitives above 16 KiB pass through a tracker in one read
+	{
+		#[cfg(feature = "garray-f")]
+		{
+			use generic_array::{typenum, GenericArray};
+			let bs = [9u8; 64];
+			let r = catch_unwind(AssertUnwindSafe(|| {
+				let mut s = &bs[..];
+				let mut m = MemTrackingInput::new(&mut s, 1);
+				let a = <GenericArray<u8, typenum::U32>>::decode(&mut m).is_ok();
+				let u1 = m.used_mem();
+				let b = <GenericArray<u32, typenum::U4>>::decode(&mut m).is_ok();
+				(a, b, u1, m.used_mem())
+			}));
+			if !matches!(r, Ok((true, true, 0, 0))) {
+				let msg = format!("GenericArray<u8, U32> / <u32, U4> under MemTrackingInput(limit 1): (ok, ok, used, used) = {:?}, expected (true, true, 0, 0)", r.ok());
+				ctx.oracle_fail("C20", msg.clone());
+				ctx.oracle_fail("C12", msg);
+			}
+		}
+		let bs = vec![3u8; 40000];
+		let r = catch_unwind(AssertUnwindSafe(|| {
+			let plain = <[u8; 20000]>::decode(&mut &bs[..]).is_ok();
+			let mut s = &bs[..];
+			let mut m = MemTrackingInput::new(&mut s, usize::MAX);
+			let a = <[u8; 20000]>::decode(&mut m).is_ok();
+			let b = <[u32; 4097]>::decode(&mut m).is_ok();
+			let mut s2 = &bs[..];
+			let mut m2 = MemTrackingInput::new(&mut s2, 1 << 20);
+			let mut c2 = CountedInput::new(&mut m2);
+			let c = <Box<[u64; 2049]>>::decode(&mut c2).is_ok();
+			let mut u = UnknownLenInput { data: &bs, pos: 0 };
+			let mut m3 = MemTrackingInput::new(&mut u, usize::MAX);
+			let d = <[u16; 9000]>::decode(&mut m3).is_ok();
+			(plain, a, b, c, d)
+		}));
+		if !matches!(r, Ok((true, true, true, true, true))) {
+			let msg = format!("primitive arrays above 16 KiB through MemTrackingInput with a non-binding limit: {:?}, expected all accepted like from the slice", r.ok());
+			ctx.oracle_fail("C08", msg.clone());
+			ctx.oracle_fail("C12", msg);
+		}
+	}
 	// many sibling holders in one collection under a SMALL but sufficient depth limit (the nesting
 	// is 2 or 3 whatever the number of siblings), alone and under the other wrappers: a level that is
 	// not given back per element would exhaust it
@@ -2045,7 +2190,88 @@ fn probe_big_reads(ctx: &mut Ctx) {
 	}
 }
 
+/// An endless source of zero bytes that never touches the buffer (so a lazily mapped, zeroed
+/// buffer of several GiB costs address space only), counting what it delivered; and an input that
+/// panics on its k-th call.
+struct ZeroSource {
+	delivered: u64,
+}
+impl Input for ZeroSource {
+	fn remaining_len(&mut self) -> Result<Option<usize>, parity_scale_codec::Error> {
+		Ok(None)
+	}
+	fn read(&mut self, into: &mut [u8]) -> Result<(), parity_scale_codec::Error> {
+		self.delivered += into.len() as u64;
+		Ok(())
+	}
+}
+struct DyingInput<'a> {
+	data: &'a [u8],
+	pos: usize,
+	calls_left: usize,
+}
+impl Input for DyingInput<'_> {
+	fn remaining_len(&mut self) -> Result<Option<usize>, parity_scale_codec::Error> {
+		Ok(Some(self.data.len() - self.pos))
+	}
+	fn read(&mut self, into: &mut [u8]) -> Result<(), parity_scale_codec::Error> {
+		if self.calls_left == 0 {
+			panic!("the wrapped input dies");
+		}
+		self.calls_left -= 1;
+		if into.len() > self.data.len() - self.pos {
+			return Err("eof".into());
+		}
+		into.copy_from_slice(&self.data[self.pos..self.pos + into.len()]);
+		self.pos += into.len();
+		Ok(())
+	}
+}
+
+fn count_extremes(ctx: &mut Ctx) {
+	// one read wider than u32::MAX bytes (64-bit targets): counted exactly, then the session goes on
+	#[cfg(target_pointer_width = "64")]
+	{
+		let n: usize = (1usize << 32) + 13;
+		let r = catch_unwind(AssertUnwindSafe(|| {
+			let mut buf: Vec<u8> = vec![0u8; n];
+			let mut z = ZeroSource { delivered: 0 };
+			let mut ci = CountedInput::new(&mut z);
+			let ok = ci.read(&mut buf[..]).is_ok();
+			let c1 = ci.count();
+			let _ = ci.read_byte();
+			let mut four = [0u8; 4];
+			let _ = ci.read(&mut four);
+			let c2 = ci.count();
+			(ok, c1, c2, z.delivered)
+		}));
+		match r {
+			Ok((true, c1, c2, delivered)) if c1 == n as u64 && c2 == n as u64 + 5 && delivered == c2 => {},
+			other => ctx.oracle_fail("C19", format!("CountedInput: one read of 2^32 + 13 bytes, then 1 + 4 more: (ok, count after the read, count at the end, delivered) = {:?}", other.ok())),
+		}
+		ctx.count("countops:wide-read", 1);
+	}
+	// the wrapped input panics inside `read` on its k-th call; the unwind is caught and the count
+	// read afterwards: still the bytes delivered
+	let data: Vec<u8> = (0..40u8).collect();
+	for k in 0..6usize {
+		let r = catch_unwind(AssertUnwindSafe(|| {
+			let mut d = DyingInput { data: &data, pos: 0, calls_left: k };
+			let mut ci = CountedInput::new(&mut d);
+			let died = catch_unwind(AssertUnwindSafe(|| <(u32, u16, u64, [u8; 5], u8, u128)>::decode(&mut ci).is_ok())).is_err();
+			let c = ci.count();
+			(died, c, d.pos as u64)
+		}));
+		match r {
+			Ok((_, c, delivered)) if c == delivered => {},
+			other => ctx.oracle_fail("C19", format!("CountedInput over an input that panics on call {}: (died, count(), delivered) = {:?}", k + 1, other.ok())),
+		}
+		ctx.count("countops:dying-input", 1);
+	}
+}
+
 fn wrapops_stream(ctx: &mut Ctx) {
+	count_extremes(ctx);
 	let mut rng = Rng::new(ctx.seed ^ 0x0B5);
 	probe_big_reads(ctx);
 	{
@@ -2207,6 +2433,38 @@ pub fn sinks_case<T: Encode + ?Sized>(ctx: &mut Ctx, name: &str, v: &T, req: &st
 		let n = v.encoded_size();
 		(a, b, d_out, e, u, n)
 	}));
+	// `using_encoded` hands out a borrowed view: it must be the same bytes when the previous
+	// callback unwound (a panic caught by the caller), and when it is re-entered from inside a
+	// callback (hashers and storage keys do both)
+	{
+		let r2 = catch_unwind(AssertUnwindSafe(|| {
+			let _ = catch_unwind(AssertUnwindSafe(|| v.using_encoded(|_| -> () { panic!("callback panics") })));
+			let after_panic = v.using_encoded(|s| s.to_vec());
+			let nested = v.using_encoded(|outer| {
+				let inner = v.using_encoded(|s| s.to_vec());
+				let s2 = "x".using_encoded(|s| s.to_vec());
+				let k = parity_scale_codec::KeyedVec::to_keyed_vec(&7u8, outer);
+				(outer.to_vec(), inner, s2, k)
+			});
+			(after_panic, nested, v.encode())
+		}));
+		match r2 {
+			Ok((after_panic, (outer, inner, s2, k), a)) => {
+				let mut want_k = a.clone();
+				want_k.push(7);
+				if after_panic != a || outer != a || inner != a || s2 != vec![4u8, b'x'] || k != want_k {
+					let msg = format!("{}: using_encoded after an unwinding callback gives {}, re-entered gives {} / {}, expected {}", name, hex_or_dash(&after_panic), hex_or_dash(&outer), hex_or_dash(&inner), hex_or_dash(&a));
+					ctx.oracle_fail("C07", msg.clone());
+					ctx.oracle_fail("C01", msg);
+				}
+			},
+			Err(_) => {
+				let msg = format!("{}: using_encoded panics when re-entered from its own callback or after a callback that unwound", name);
+				ctx.oracle_fail("C07", msg.clone());
+				ctx.oracle_fail("C01", msg);
+			},
+		}
+	}
 	match r {
 		Ok((a, b, d, e, u, n)) => {
 			// oracle (C07): all entry points and sinks describe the same byte string
@@ -2716,6 +2974,24 @@ fn alloc_case<T: Cat>(ctx: &mut Ctx, name: &str, bs: &[u8], depth_allowance: usi
 				},
 			}))
 		});
+		// `skip` is a decode that keeps nothing: the same bound on what it may request (slice and
+		// unknown-length input)
+		if input_kind <= 1 {
+			let (_r, ms) = crate::alloc::measure(|| {
+				catch_unwind(AssertUnwindSafe(|| {
+					if input_kind == 0 {
+						let mut s = &bs[..];
+						T::skip(&mut s).is_ok()
+					} else {
+						let mut u = UnknownLenInput { data: bs, pos: 0 };
+						T::skip(&mut u).is_ok()
+					}
+				}))
+			});
+			if ms.max_request > bound_req || ms.peak_live > bound_peak {
+				ctx.oracle_fail("C09", format!("{} [skip, {}]: largest request {} bytes, peak {} live bytes while stepping over {} input bytes (bounds {} / {}): {}", name, if input_kind == 0 { "slice" } else { "unknown-length input" }, ms.max_request, ms.peak_live, bs.len(), bound_req, bound_peak, &hex_or_dash(bs)[..hex_or_dash(bs).len().min(60)]));
+			}
+		}
 		let kind = ["slice", "unknown-length input", "io reader", "shared buffer", "zero-sized input type", "memory-tracking input (1 GiB limit) over a slice", "counting over memory-tracking (1 GiB) over an unknown-length input"][input_kind];
 		ctx.count("alloc:measured-decodes", 1);
 		// the requests themselves (count, sum, largest) are compared with the model's request trace
